@@ -71,7 +71,7 @@ Proof.
   eexists. eexists. split; [vm_compute; reflexivity|]. vm_compute. repeat split; reflexivity.
 Qed.
 
-(* the repaired defect: with the field order of SubmitFlags before fix 558ac8c (ReplyPath declared before
+(* the repaired defect: with the field order of SubmitFlags before fix 922f91c (ReplyPath declared before
    UserDataHeaderIndicator and StatusReportRequest) a first octet with only TP-SRR set (0x21) shows
    ReplyPath = 1, StatusReportRequest = 0; with the order of the running code it shows the standard's values *)
 Definition submit_fields_legacy : list (string * fbit) :=
